@@ -16,7 +16,7 @@ rules = [
  (r'packet.go.*slice', 'n ≤ length by the io.Reader contract'),
  (r'chunked_writer.go', 'nn < end ≤ len(p) by the loop condition'),
  (r'connection.go.*plainRequest', 'n = min(len(b), p.body) ≤ len(b), computed two lines above (exercised by the C03 hand-over and C05 inject streams)'),
- (r'connection.go.*EncryptedWrite', 'Encrypt fails only for keys that are not 32 bytes; session keys are [32]byte'),
+ (r'connection.go.*ncryptedWrite', 'Encrypt fails only for keys that are not 32 bytes; session keys are [32]byte'),
  (r'connection.go', 'buffer arithmetic on lengths checked in the same function (exercised by C07)'),
  (r'context.go', 'every request arrives on an accepted connection whose session NewConnection registered; the device is set at construction'),
  (r'endpoint/pair-(setup|verify).go.*assert', 'every request arrives on an accepted connection whose session NewConnection registered'),
